@@ -84,7 +84,7 @@ def bounded(rep, tier):
     seeds = (0, 1) if tier == "quick" else (0, 1, 2, 3, 4, 5, 6, 7, 42, 12345, 99991)
     jobs = [(n, s, repo) for n in G.TEMPLATES for s in seeds]
     rs = pool_map(G.run_one, jobs)
-    bad = G.compare(rs) + G.getdef_inherit_check()
+    bad = G.compare(rs) + G.getdef_inherit_check() + G.getdef_args_check()
     bound = "%d templates x PYTHONHASHSEED %s x paths {string, file, module directory, reloaded, lookup, lookup with leading slash, modulename_callable, ModuleTemplate, mako-render, mako-render --output-encoding, --output-file} x {render, render_unicode, render_context, get_def}" % (len(G.TEMPLATES), list(seeds))
     if bad:
         rep.add(Result("C08.path-grid", VIOLATED, klass="B", backend="native-compare", function="mako.template:Template", bound=bound, evaluations=len(jobs) * 11,
